@@ -76,7 +76,16 @@ def run_case(c):
         mc = cls(atoms, temperature=c["T"], seed=c["seed"], max_cycles=c.get("max_cycles", 2), logfile=None)
         for j, ms in enumerate(c["moves"]):
             if ms["kind"] == "hamiltonian":
-                mv = HamiltonianDisplacementMove(operation=Verlet(dt=ms["dt"], max_steps=ms["n"]))
+                if ms.get("default_built"):
+                    # an unrelated, default-built Hamiltonian move elsewhere in the process is tuned by ITS owner (constraints off): nobody else may notice;
+                    # ours is default-built too and tuned through the public attributes of its integrator
+                    other = HamiltonianDisplacementMove()
+                    other.operation.apply_constraints = False
+                    mv = HamiltonianDisplacementMove()
+                    mv.operation.dt = Verlet(dt=ms["dt"]).dt
+                    mv.operation.max_steps = ms["n"]
+                else:
+                    mv = HamiltonianDisplacementMove(operation=Verlet(dt=ms["dt"], max_steps=ms["n"]))
                 mv.max_attempts = 3
             else:
                 mv = DisplacementMove(np.array(ms["labels"]), OPS[ms["op"]]())
